@@ -223,6 +223,24 @@ var specC09Scalars = Register(&Spec[ScalarsCase]{
 		if !sameUpToTrailingNewline(y.Multi, x.Multi) || !sameUpToTrailingNewline(y.Text, x.Text) {
 			return errf("round trip changed a multi-line string: wrote %q / %q as %q, read %q / %q", x.Multi, x.Text, text, y.Multi, y.Text)
 		}
+		// the paragraph-level API is a second route for the same conversion
+		para2, err := control.ConvertToParagraph(&x)
+		if err != nil {
+			return errf("ConvertToParagraph(%+v): %v", x, err)
+		}
+		var viaPara probeScalars
+		if err := control.UnpackFromParagraph(*para2, &viaPara); err != nil {
+			return errf("UnpackFromParagraph(ConvertToParagraph(x)) failed: %v", err)
+		}
+		wantVia := x
+		wantVia.Skipped = ""
+		if viaPara.Multi != "" || x.Multi != "" {
+			// the multiline tag adds its layout newline in front; the text form removes it again
+			viaPara.Multi = strings.TrimPrefix(viaPara.Multi, "\n")
+		}
+		if viaPara != wantVia {
+			return errf("ConvertToParagraph/UnpackFromParagraph changed the value: %+v became %+v", wantVia, viaPara)
+		}
 		for _, req := range []string{"Req", "Req-Empty"} {
 			var z probeScalars
 			if err := control.Unmarshal(&z, strings.NewReader(dropFieldLines(text, req))); err == nil {
